@@ -215,16 +215,19 @@ def scan_forbidden():
     return bad
 
 
-def make(timeout=3000):
-    """Bring every .vo up to date (no-op when setup_cmd has run)."""
-    if not os.path.exists(os.path.join(COQ, 'Makefile')):
-        subprocess.run(['coq_makefile', '-f', '_CoqProject', '-o', 'Makefile'],
-                       cwd=COQ, check=True, capture_output=True)
+def make(target=None, timeout=3000):
+    """Bring the .vo files a property needs up to date (no-op after
+    setup_cmd).  Only the property's own statement file and its dependencies
+    are built, so a broken proof elsewhere does not disturb this check."""
     import fcntl
     with open(os.path.join(COQ, '.build.lock'), 'w') as lk:
         fcntl.flock(lk, fcntl.LOCK_EX)      # one build at a time
-        r = subprocess.run(['make', '-j%d' % NPROC], cwd=COQ, capture_output=True,
-                           text=True, timeout=timeout)
+        if not os.path.exists(os.path.join(COQ, 'Makefile')):
+            subprocess.run(['coq_makefile', '-f', '_CoqProject', '-o', 'Makefile'],
+                           cwd=COQ, check=True, capture_output=True)
+        cmd = ['make', '-j%d' % NPROC] + ([target] if target else [])
+        r = subprocess.run(cmd, cwd=COQ, capture_output=True, text=True,
+                           timeout=timeout)
     return r.returncode, (r.stdout + r.stderr)
 
 
@@ -384,7 +387,10 @@ def check(pid, tier, seed):
     try:
         pre = getattr(prop, 'prebuild', None)
         pre_info = pre(tier, seed) if pre else None
-        rc, log = make()
+        if prop.PROPS_FILE in open(os.path.join(COQ, '_CoqProject')).read():
+            rc, log = make(prop.PROPS_FILE[:-2] + '.vo')
+        else:       # family still under development: files compiled by hand
+            rc, log = 0, ''
         build_fail = None
         if rc != 0:
             build_fail = log[-4000:]
@@ -554,7 +560,7 @@ def replay(path, seed):
         return rp(data) if rp else 1
     sess = Session(prop, seed)
     try:
-        make()
+        make(prop.PROPS_FILE[:-2] + '.vo')
         (tr,), (v,) = sess.evaluate([data['case']])
     finally:
         sess.close()
